@@ -263,3 +263,64 @@ class ActorRun:
                                       " and self._set_op_power_group.n_drops == pre_d2 + 1 and upd.n_calls == pre_calls)",
         ))}
     ensures = dict(stream_ended="True")
+
+
+# ------------------------------------------------------------------ what a pool hands to the power manager
+BPOOL = "frequenz.sdk.timeseries.battery_pool._battery_pool"
+from contracts.common import ProposalBoundsT  # noqa: E402  pylint: disable=wrong-import-position
+
+ProposalSenderT = ExtObj("frequenz.channels.Sender", methods=dict(send=dict(is_async=True, effects={
+    "n_sent": "self.n_sent + 1", "last_power": "args[0].preferred_power", "last_lower": "args[0].bounds.lower",
+    "last_upper": "args[0].bounds.upper", "last_priority": "args[0].priority", "last_source": "args[0].source_id",
+    "last_op": "args[0].set_operating_point"})),
+    n_sent=_I, last_power=Opt(PowerT), last_lower=Opt(PowerT), last_upper=Opt(PowerT), last_priority=_I,
+    last_source=StrId, last_op=Bool)
+PoolForProposalT = Obj(f"{BPOOL}:BatteryPool", _source_id=StrId, _priority=_I, _set_operating_point=Bool,
+                       _pool_ref_store=Obj("frequenz.sdk.timeseries.battery_pool._battery_pool_reference_store:BatteryPoolReferenceStore",
+                                           _batteries=OpaqueT("battery ids"), _power_manager_requests_sender=ProposalSenderT))
+
+
+@contract(f"{BPOOL}:BatteryPool.propose_power")
+class ProposePower:
+    """C04 (caller side): what an actor proposes is what the power manager receives - the preferred power and BOTH
+    sides of the bounds exactly as given (one-sided bounds included), under the pool's own priority and source id."""
+    self_shape = PoolForProposalT
+    shapes = dict(power=Opt(PowerT), bounds=ProposalBoundsT)
+    ghost = dict(loop=ExtObj("event loop", methods=dict(time=dict(returns="now_s"))), now_s=Real)
+    externals = {"asyncio.get_running_loop": "loop"}
+    modifies = ["self._pool_ref_store._power_manager_requests_sender", "loop"]
+    ensures = dict(
+        one_proposal="self._pool_ref_store._power_manager_requests_sender.n_sent"
+                     " == old(self._pool_ref_store._power_manager_requests_sender.n_sent) + 1",
+        power_as_given="self._pool_ref_store._power_manager_requests_sender.last_power == power",
+        bounds_as_given="self._pool_ref_store._power_manager_requests_sender.last_lower == bounds.lower"
+                        " and self._pool_ref_store._power_manager_requests_sender.last_upper == bounds.upper",
+        identity_as_configured="self._pool_ref_store._power_manager_requests_sender.last_priority == self._priority"
+                               " and self._pool_ref_store._power_manager_requests_sender.last_source == self._source_id"
+                               " and self._pool_ref_store._power_manager_requests_sender.last_op == self._set_operating_point",
+    )
+
+
+@contract(f"{A}:PowerManagingActor._bounds_tracker")
+class BoundsTracker:
+    """C11 ("the latest system bounds the manager has RECEIVED"): every bounds message - whatever its timestamp -
+    replaces the cached bounds of the group and triggers one recomputation of the request (no proposal)."""
+    self_shape = Obj(f"{A}:PowerManagingActor", _system_bounds=DictOpt({CID: SystemBoundsT}))
+    shapes = dict(component_ids=Const(CID), bounds_receiver=ExtObj("frequenz.channels.Receiver", stream=SystemBoundsT))
+    ghost = dict(upd=UpdatePathT)
+    externals = {
+        f"{A}:PowerManagingActor._send_updated_target_power":
+            "upd.note(args[1], args[2], kwargs['must_send'] if 'must_send' in kwargs else (args[3] if len(args) > 3 else False))",
+        f"{A}:PowerManagingActor._send_reports": "None",
+    }
+    modifies = ["self._system_bounds", "upd", "bounds_receiver"]
+    loops = {"async for bounds in bounds_receiver": dict(
+        havoc_fields={"self._system_bounds": DictOpt({CID: SystemBoundsT}), "upd.n_calls": _I, "upd.last_proposal_none": Bool,
+                      "upd.last_must_send": Bool, "upd.calls": OpaqueT("log"), "upd.results": OpaqueT("log")},
+        invariant=dict(true="True"),
+        ghost_pre=["pre_calls = upd.n_calls"],
+        step=dict(
+            latest_received_bounds_cached="CID in self._system_bounds and self._system_bounds[CID] == bounds",
+            request_recomputed_once="upd.n_calls == pre_calls + 1 and upd.last_proposal_none",
+        ))}
+    ensures = dict(stream_ended="True")
